@@ -6,7 +6,7 @@
    connection counts over long runs; the race detector over the concurrent loops) - partial. *)
 From Coq Require Import ZArith NArith Bool List.
 From Mysync Require Import Gtid.Interval Gtid.GtidSet Pure.Quorum Base.Prog Base.ProgFacts Base.Config
-  Base.Post Procs.NodeOps Procs.Lost Procs.ActiveNodes Procs.Switchover Procs.Repair Procs.Optimization Procs.Manager Procs.Recovery Proofs.RepairProofs Proofs.ManagerProofs Proofs.RecoveryProofs Proofs.NoCrash.
+  Base.Post Procs.NodeOps Procs.Lost Procs.ActiveNodes Procs.Switchover Procs.Repair Procs.Optimization Procs.Manager Procs.Recovery Proofs.RepairProofs Proofs.ManagerProofs Proofs.RecoveryProofs Proofs.NoCrash Procs.LagCheck Proofs.LagCheckProofs Proofs.GatesProofs.
 Import ListNotations.
 Open Scope Z_scope.
 
@@ -108,3 +108,14 @@ Theorem C20_speedup_phase_never_crashes : forall fuel cfg env sw active timeout 
   runs (optimization_phase fuel cfg env sw active timeout) tr o -> exists a, o = Done a.
 Proof. exact optimization_phase_never_crashes. Qed.
 Print Assumptions C20_speedup_phase_never_crashes.
+
+(* the background lag checker of every process (LagResetupper.CheckNeedResetup of internal/app/resetup): never crashes, for every
+   registry, every master record (missing, dangling, the local host) and every answer of every call - the crash leaf
+   "recorded master is not a registered host" was found on the real code and repaired (fix 5ceb11e) - and it only reads *)
+Theorem C20_lag_checker_never_crashes : forall bound local m, nopanic (lag_check bound local m).
+Proof. exact lag_check_nopanic. Qed.
+Print Assumptions C20_lag_checker_never_crashes.
+
+Theorem C20_lag_checker_only_reads : forall bound local m, allcalls (fun _ c => readb c = true) (lag_check bound local m).
+Proof. exact lag_check_only_reads. Qed.
+Print Assumptions C20_lag_checker_only_reads.
